@@ -5,6 +5,7 @@
 set -u
 export GOFLAGS=-mod=mod GOPROXY=off GOSUMDB=off GOTOOLCHAIN=local
 seed="$1"; dest="$2"; re="$3"; id="${4:-seed}"
+RACE=${SEED_RACE:+-race}
 wt=/tmp/wt/verify_$id
 git -C /repo worktree remove --force $wt >/dev/null 2>&1
 git -C /repo worktree add -q --detach $wt HEAD || exit 2
@@ -15,9 +16,9 @@ build=ok; go build ./common/... ./handlers/... ./metrics/... ./orcas/... ./proto
 for f in app/memproxy.go app/memcached_cluster_proxy.go; do go build -o /dev/null ./$f >/dev/null 2>&1 || build=FAIL; done
 tests=ok; go test -vet=off -count=1 $PK > $wt/.existing.log 2>&1 || tests=FAIL
 for f in "$seed"/*_test.go; do b=$(basename $f); case $b in zz_*) cp $f $dest/$b;; *) cp $f $dest/zz_$b;; esac; done
-with=PASS; timeout 900 go test -vet=off -count=1 -run "$re" ./$dest/ > $wt/.with.log 2>&1 || with=FAIL
+with=PASS; timeout 1500 go test $RACE -vet=off -count=1 -run "$re" ./$dest/ > $wt/.with.log 2>&1 || with=FAIL
 git checkout -q -- . 
-without=PASS; timeout 900 go test -vet=off -count=1 -run "$re" ./$dest/ > $wt/.without.log 2>&1 || without=FAIL
+without=PASS; timeout 1500 go test $RACE -vet=off -count=1 -run "$re" ./$dest/ > $wt/.without.log 2>&1 || without=FAIL
 echo "{\"id\":\"$id\",\"build_with_change\":\"$build\",\"existing_tests_with_change\":\"$tests\",\"demo_with_change\":\"$with\",\"demo_without_change\":\"$without\"}"
 if [ "$with" != "FAIL" ] || [ "$without" != "PASS" ]; then tail -5 $wt/.with.log $wt/.without.log; fi
 cd /; git -C /repo worktree remove --force $wt
